@@ -112,6 +112,7 @@ func c07Emit(kind replication.EventType, fault int, rows ...[]interface{}) {
 
 type c07Cfg struct {
 	rows, writes int
+	kinds        []int // write kinds (0 insert, 1 update first row, 2 delete first row, 3 update every row in one event, 4 delete every row in one event)
 	faults       []int // fault kinds a write's event may have
 	layouts      []int
 	filters      []int
@@ -139,7 +140,34 @@ func c07Write(name string) {
 	w := c07W
 	fault := c07C.faults[nondet.Choice(name+".fault", len(c07C.faults))]
 	table := sqlgen.VerifTable()
-	switch nondet.Choice(name+".kind", 3) {
+	kinds := c07C.kinds
+	if kinds == nil {
+		kinds = []int{0, 1, 2}
+	}
+	switch kinds[nondet.Choice(name+".kind", len(kinds))] {
+	case 3: // one UPDATE statement changing every row: one event with a before/after pair per row
+		var rows [][]interface{}
+		var next []*sqlgen.VerifUser
+		for i, before := range table {
+			after := c07NewUser(name+"."+strconv.Itoa(i), before.Id)
+			next = append(next, after)
+			rows = append(rows, c07Row(before), c07Row(after))
+		}
+		if len(rows) == 0 {
+			return
+		}
+		sqlgen.VerifSetTable(next)
+		c07Emit(replication.UPDATE_ROWS_EVENTv2, fault, rows...)
+	case 4: // one DELETE statement removing every row
+		var rows [][]interface{}
+		for _, before := range table {
+			rows = append(rows, c07Row(before))
+		}
+		if len(rows) == 0 {
+			return
+		}
+		sqlgen.VerifSetTable([]*sqlgen.VerifUser{})
+		c07Emit(replication.DELETE_ROWS_EVENTv2, fault, rows...)
 	case 0: // insert
 		w.nextID++
 		u := c07NewUser(name, w.nextID)
@@ -278,12 +306,22 @@ var c07AllFilters = []int{0, 1, 2, 3, 4, 5, 6}
 
 // quick: 1 row, 1 write, integer / NULL filters, permuted database columns
 func VerifC07OneWrite() {
-	c07Run(c07Cfg{rows: 1, writes: 1, faults: []int{c07FaultNone}, layouts: []int{1}, filters: []int{1, 2, 3}})
+	c07Run(c07Cfg{rows: 1, writes: 1, faults: []int{c07FaultNone}, layouts: []int{1}, filters: []int{1, 2, 3, 6}})
 }
 
-// quick: 1 row, 1 write, string / two-column / value-on-pointer-column filters, name and city vary
+// quick: 1 row, 1 insert or update, filter on the string column / a value on the pointer column
+func VerifC07Name() {
+	c07Run(c07Cfg{rows: 1, writes: 1, kinds: []int{1}, faults: []int{c07FaultNone}, layouts: []int{0}, filters: []int{4}, strings: true})
+}
+
+// thorough: 1 row, 1 write, string / two-column / value-on-pointer-column filters, name and city vary
 func VerifC07Strings() {
 	c07Run(c07Cfg{rows: 1, writes: 1, faults: []int{c07FaultNone}, layouts: []int{0}, filters: []int{4, 5, 6}, strings: true})
+}
+
+// quick: 2 rows, one statement that changes (or deletes) both: one event with several rows
+func VerifC07MultiRow() {
+	c07Run(c07Cfg{rows: 2, writes: 1, kinds: []int{3, 4}, faults: []int{c07FaultNone}, layouts: []int{0}, filters: []int{1, 3}})
 }
 
 // quick: 1 row, 1 write whose event is undecodable
